@@ -347,6 +347,27 @@ func TestVerif_C01_Envelopes(t *testing.T) {
 				honest(w.R, m, "first-open-after-forgeries")
 			}
 		}
+		// (g) every genuine message has now been received through the store. The insider sends a push that cites the
+		// content identifier of such an entry (a field the sealer of a push chooses freely) but carries another payload,
+		// encrypted with the right message key and signed with a key of its own
+		for _, m := range msgs {
+			mk := vMessageKeyAt(sCK.ChainKey, c0, m.counter, gid)
+			fhdr := &protocoltypes.MessageHeaders{Counter: m.counter, DevicePk: sDev, Sig: insiderSig}
+			fme := &protocoltypes.MessageEnvelope{Message: vSealPayloadWithKey(mk, m.counter, vWrap(forged))}
+			oos, err := w.M.s.SealOutOfStoreMessageEnvelope(vCID(m.env), fme, fhdr, g)
+			if err != nil {
+				break
+			}
+			b, _ := proto.Marshal(oos)
+			_, _, clear, _, perr := w.R.s.OpenOutOfStoreMessage(vctx, b)
+			trace = append(trace, fmt.Sprintf("forged push citing the identifier of received entry #%d -> err=%v", m.counter, perr))
+			if perr == nil {
+				fail("forgery-accepted/g/forged-push-citing-a-received-entry", "a push payload forged by a fellow member (right message key, its own signature) that cites the content identifier of an entry already received through the store was opened: %q attributed to the sender at counter %d", trunc(clear, 40), m.counter)
+			}
+			classes["g"] = true
+			decrypting++
+			break
+		}
 		// the message S seals next (the counter the insider forged ahead of) still opens
 		nextP := []byte("next genuine message")
 		nextEnv := vSeal(w.S, g, nextP)
